@@ -238,6 +238,28 @@ def rule_mask_hide(check, model, rule, rule_src):
             check.holds(rule, st, 'buckets before the name loop are exactly those the hide flags leave', key=key, guards=gtext,
                         effect=', '.join('%s:%s' % (proto.kind_at(i), got[i]) for i in range(5)))
         seen.add(key)
+        # hide_args: the names of every positional parameter that is removed are recorded as consumed (a later name among them is
+        # a duplicate, and their provenance entries go with them)
+        if g.get('hide_args') is True:
+            key_c = '_signatures:_mask|hide_args-consumes|%s' % fkeytxt
+            if key_c not in seen:
+                seen.add(key_c)
+                got_c = set()
+                for e in p.effects:
+                    if e.kind == 'mut' and e.target[0] == 'SET' and e.op in ('update', 'add', 'ior') and e.args:
+                        for s_ in subterms(e.args[0]):
+                            b_ = model.sides.bucket(s_)
+                            if b_ is not None and b_[1] in (iPO, iPOK):
+                                got_c.add(b_[1])
+                missing = [proto.kind_at(i) for i in (iPO, iPOK) if i not in got_c]
+                if missing:
+                    for r_ in set(x for x in (rule, rule_src) if x):
+                        check.violation(r_, st, 'hide_args removes the %s parameters without recording their names as consumed: naming one of them '
+                                        'afterwards is not rejected as a duplicate and their provenance entries stay' % '/'.join(missing), key=key_c,
+                                        guards=gtext, witness="mask(s('a, b'), 0, 'a', hide_args=True) must raise; mask(s('a'), hide_args=True).sources has no 'a'")
+                else:
+                    for r_ in set(x for x in (rule, rule_src) if x):
+                        check.holds(r_, st, 'hide_args records the names of all positional parameters as consumed', key=key_c, guards=gtext)
         # the list of names processed is emptied under hide_kwargs
         nl = [e for e in p.effects if e.kind == 'loop' and _is_name_loop(model, e)]
         key2 = '_signatures:_mask|names|%s' % fkeytxt
